@@ -13,6 +13,12 @@ use std::mem;
 verus! {
 
 //@include _shared/handler_prelude.rs
+opaque!(Object);
+opaque!(Service);
+opaque!(PendingFunctionCall);
+#[verifier::external_body]
+#[verifier::reject_recursive_types(T)]
+pub struct SerialMap<T> { _p: core::marker::PhantomData<T> }
 opaque!(BusListener);
 
 // ---- message structs and enums extracted from aldrin-core ----------------------------------------------
